@@ -8,13 +8,18 @@
 From CB Require Import Spec Unstable.
 From Coq Require Import Permutation.
 From CBP Require Import Step RefDefs C02Lemmas Arith AbsLemmas AllOps FaultDefs FaultPrims FaultDropA FaultDropB FaultUser
-     Iters DrainP ExtendIo CmpHash Ctors PhysMoves UnstableEq Access Views RefTruncate FillExtend FaultFrame SpecCorollaries.
+     Iters DrainP ExtendIo CmpHash Ctors PhysMoves MoreOps UnstableEq Access Views RefTruncate FillExtend FaultFrame SpecCorollaries.
 
 
 Theorem C09_drain_drop :
   forall sb eb script, refines_op (ODrain sb eb script false).
 Proof. exact (drain_drop_op). Qed.
 Print Assumptions C09_drain_drop.
+
+Theorem C09_drain_debug :
+  forall sb eb pre, refines_op (ODrainDebug sb eb pre).
+Proof. exact (drain_debug_op). Qed.
+Print Assumptions C09_drain_debug.
 
 Theorem C09_drain_protocol :
   forall s w sb eb sc v s' w',
